@@ -332,9 +332,29 @@ func (d *Decoder) readField(fldName string, fldValue reflect.Value) error {
 	sourceValue := fldValue
 	typ := UnpackPtrType(fldValue.Type())
 	fldValue = UnpackPtrValue(fldValue)
+
+	// value ::= class-def value: class definitions may stand in front of the value of any field, whatever its
+	// type; they are recorded here and the tag of the value proper is handed on to the reader for the field's kind
+	t, err := d.readTag()
+	if err != nil {
+		return tagReadError(err)
+	}
+	for t == _objectDefTag {
+		clsDef, err := d.readClassDef()
+		if err != nil {
+			return err
+		}
+		clsD, _ := clsDef.(ClassDef)
+		d.clsDefList = append(d.clsDefList, clsD)
+		if t, err = d.readTag(); err != nil {
+			return tagReadError(err)
+		}
+	}
+	tag := int32(t)
+
 	switch typ.Kind() {
 	case reflect.String:
-		str, err := d.readString(_tagRead)
+		str, err := d.readString(tag)
 		if err != nil {
 			return err
 		}
@@ -342,53 +362,53 @@ func (d *Decoder) readField(fldName string, fldValue reflect.Value) error {
 			fldValue.SetString(str)
 		}
 	case reflect.Int32, reflect.Int, reflect.Int16, reflect.Int8:
-		i, err := d.readInt(_tagRead)
+		i, err := d.readInt(tag)
 		if err != nil {
 			return err
 		}
 		v := int64(i)
 		fldValue.SetInt(v)
 	case reflect.Uint8, reflect.Uint16:
-		i, err := d.readInt(_tagRead)
+		i, err := d.readInt(tag)
 		if err != nil {
 			return err
 		}
 		v := uint64(i)
 		fldValue.SetUint(v)
 	case reflect.Int64:
-		i, err := d.readLong(_tagRead)
+		i, err := d.readLong(tag)
 		if err != nil {
 			return err
 		}
 		fldValue.SetInt(i)
 	case reflect.Uint64, reflect.Uint, reflect.Uint32:
-		i, err := d.readLong(_tagRead)
+		i, err := d.readLong(tag)
 		if err != nil {
 			return err
 		}
 		fldValue.SetUint(uint64(i))
 	case reflect.Bool:
-		b, err := d.readBoolean(_tagRead)
+		b, err := d.readBoolean(tag)
 		if err != nil {
 			return err
 		}
 		fldValue.SetBool(b)
 	case reflect.Float32, reflect.Float64:
-		f, err := d.readDouble(_tagRead)
+		f, err := d.readDouble(tag)
 		if err != nil {
 			return err
 		}
 		fldValue.SetFloat(f)
 	case reflect.Struct:
-		s, err := d.readStruct()
+		s, err := d.readStruct(tag)
 		if err != nil {
 			return err
 		}
 		SetValue(sourceValue, EnsureRawValue(s))
 	case reflect.Map:
-		return d.readMap(sourceValue)
+		return d.readMap(sourceValue, tag)
 	case reflect.Slice, reflect.Array:
-		m, err := d.ReadList(_tagRead)
+		m, err := d.ReadList(tag)
 		if err != nil {
 			if err == io.EOF {
 				break // ignore nil slice
